@@ -380,10 +380,43 @@ func hasCodecCall(b *ssa.BasicBlock) bool {
 // akaEncodePaths enumerates the success paths of EapAkaPrime.Marshal.
 func (c *Ctx) akaEncodePaths(fn *ssa.Function) (header akaPath, body []akaPath, err error) {
 	loops := naturalLoops(fn)
-	if len(loops) != 1 {
-		return header, nil, fmt.Errorf("expected one attribute loop, found %d", len(loops))
+	// the attribute loop: the one loop that emits octets (binary.Write / buffer writes / appends of octets);
+	// a key-collecting loop folded into Marshal emits none
+	var li *loopInfo
+	emits := func(ins ssa.Instruction) bool {
+		call, ok := ins.(*ssa.Call)
+		if !ok {
+			return false
+		}
+		if staticCallTo(call, "encoding/binary.Write") != nil {
+			return true
+		}
+		if cal := call.Call.StaticCallee(); cal != nil && (cal.String() == "(*bytes.Buffer).WriteByte" || cal.String() == "(*bytes.Buffer).Write") {
+			return true
+		}
+		if ap := isAppendCall(call); ap != nil && isPlainByteSlice(ap.Type()) {
+			return true
+		}
+		return false
 	}
-	li := loops[0]
+	nEmit := 0
+	for _, l := range loops {
+		has := false
+		for b := range l.body {
+			for _, ins := range b.Instrs {
+				if emits(ins) {
+					has = true
+				}
+			}
+		}
+		if has {
+			nEmit++
+			li = l
+		}
+	}
+	if nEmit != 1 {
+		return header, nil, fmt.Errorf("expected one attribute loop that emits octets, found %d (of %d loops)", nEmit, len(loops))
+	}
 	tokOf1 := func(ins ssa.Instruction) (akaTok, bool) {
 		call := staticCallTo(valueOf(ins), "encoding/binary.Write")
 		if call == nil {
@@ -468,6 +501,52 @@ func (c *Ctx) akaEncodePaths(fn *ssa.Function) (header akaPath, body []akaPath, 
 		call, ok := ins.(*ssa.Call)
 		if !ok {
 			return nil
+		}
+		if ap := isAppendCall(call); ap != nil && isPlainByteSlice(ap.Type()) {
+			// out = append(out, b0, b1, ...) / append(out, value...) / append(out, make([]byte, pad)...)
+			src := ap.Call.Args[1]
+			pos := c.InstrPos(ins)
+			if sl, ok := src.(*ssa.Slice); ok {
+				if al, ok := sl.X.(*ssa.Alloc); ok && isByteArrayPtr(al.Type()) {
+					n, _ := arrayLen(al.Type())
+					out := make([]akaTok, n)
+					for i := range out {
+						out[i] = akaTok{W: "1", To: "const:0", Pos: pos}
+					}
+					stored := false
+					for _, ref := range *al.Referrers() {
+						ia, ok := ref.(*ssa.IndexAddr)
+						if !ok {
+							continue
+						}
+						k, ok := ia.Index.(*ssa.Const)
+						if !ok {
+							return []akaTok{{W: "v", To: "?", Pos: pos}}
+						}
+						idx, _ := constInt64(k.Value)
+						for _, r2 := range *ia.Referrers() {
+							if st, ok := r2.(*ssa.Store); ok && idx >= 0 && idx < n {
+								out[idx] = octetTok(st.Val, pos)
+								stored = true
+							}
+						}
+					}
+					if !stored {
+						return []akaTok{{W: "v", To: "pad", Pos: pos}} // a zero array: fill octets
+					}
+					return out
+				}
+			}
+			if _, ok := src.(*ssa.MakeSlice); ok {
+				return []akaTok{{W: "v", To: "pad", Pos: pos}}
+			}
+			if fk, ok := fieldKeyOfLoad(src); ok {
+				return []akaTok{{W: "v", To: "field:" + fk, Pos: pos}}
+			}
+			if k, ok := src.(*ssa.Const); ok && k.Value == nil {
+				return nil
+			}
+			return []akaTok{{W: "v", To: "?", Pos: pos}}
 		}
 		cal := call.Call.StaticCallee()
 		if cal == nil {
@@ -1333,4 +1412,15 @@ func (c *Ctx) akaReferenceClasses(r *Report, rule string, um *ssa.Function, dcas
 			r.ok(rule, key, s.Pos, "octets 2-3: "+s.Reserved, true)
 		}
 	}
+}
+
+
+// isPlainByteSlice: []byte / []uint8 with an unnamed element type (not a list of a named octet type).
+func isPlainByteSlice(t types.Type) bool {
+	st, ok := t.Underlying().(*types.Slice)
+	if !ok {
+		return false
+	}
+	b, ok := st.Elem().(*types.Basic)
+	return ok && (b.Kind() == types.Uint8 || b.Kind() == types.Byte)
 }
